@@ -22,7 +22,7 @@ from run import Case
 import zoo_c20 as z
 
 PROPERTY = "C20"
-LEAN_MODULE = "PyOak.Props.C20"
+LEAN_MODULE = "PyOak.Props.C20All"
 THEOREMS = ["PyOak.C20." + t for t in [
     "children_eq", "ldfsLoop_sim", "lbfsLoop_sim",
     "ldfs_top_down", "ldfs_bottom_up", "ldfs_skip_self", "ldfs_start_like_any_position",
@@ -31,9 +31,18 @@ THEOREMS = ["PyOak.C20." + t for t in [
     "legacy_match_parsed", "digitsVal_natStr", "parseStepBody_render", "lparseSteps_render",
     "legacy_transformer_reads_path", "legacy_written_path",
     "calc_xpath_iff", "calc_spells_chain", "calc_sound", "calc_nodes"]]
-PARTIAL = ["text -> tokens (the character-level lexer: whitespace skipping, maximal CNAME, lark's contextual lexing) is "
-           "modelled and exercised by the correspondence on every run but has no theorem; from tokens on (step parser "
-           "incl. all index digits, transformer walk, matcher, denoted path) everything is proved"]
+# Props/C20Text.lean (after AUDIT.md): the character level for the legacy constructor (lexer + step parser + transformer
+# walk + matcher composed, absolute and relative texts), agreement with the successor from the same text, and the
+# value calculate_xpath finally stores on each node object (= Tree.get_xpath)
+THEOREMS += ["PyOak.C20." + t for t in [
+    "lparseXPath_render", "lparseXPath_render_rel", "legacy_text_agrees_with_successor", "calc_final", "calc_eq_get_xpath",
+    "lparseXPath_unknown_class_rejected", "parseXPath_unknown_class_rejected"]]
+PARTIAL = ["text level: proved for written paths with canonical decimal indices and any admissible white space "
+           "(lparseXPath_render / lparseXPath_render_rel: lexer, step parser, transformer walk and matcher composed); "
+           "zero-padded numerals and WHICH malformed texts are rejected (beyond a class that is not a node class: "
+           "lparseXPath_unknown_class_rejected) have no theorem (correspondence only; the model's "
+           "lparseXPath collapses every failure to the one definition error); the node's parent chain is an argument of "
+           "the match theorems - the link from the legacy heap's parent pointers (C18) to that chain is not proved"]
 RULE = ("attached legacy trees from harness/zoo_c20.py (single / optional / tuple / list child fields, subclass chain, "
         "collections of length 11-14, content-identical twins) x start node (root and inner nodes) x prune / filter "
         "predicates given as subsets of node objects x bottom_up x skip_self; thorough additionally enumerates all "
@@ -143,6 +152,7 @@ def _walk_cases(rng, start, all_subsets: bool, desc_root: str):
     for prune, filt in subsets():
         pf = (lambda n: by_id[id(n)] in prune)  # noqa
         ff = None if filt is None else (lambda n: by_id[id(n)] in filt)
+        positional = rng.random() < 0.4
         if rng.random() < 0.3:
             # callbacks given as falsy callable objects are callbacks all the same (only None means "no callback")
             pf = _FalsyCallable(pf)
@@ -153,13 +163,19 @@ def _walk_cases(rng, start, all_subsets: bool, desc_root: str):
         d2 = f"{desc} prune={sorted(prune)} filter={None if filt is None else sorted(filt)}"
         for skip in (False, True):
             for bu in (False, True):
-                real = _obs(toks, lambda: start.dfs(prune=pf if (prune or all_subsets) else None, filter=ff,
-                                                    bottom_up=bu, skip_self=skip))
+                if positional:      # the documented parameter order, arguments by position
+                    real = _obs(toks, lambda: start.dfs(pf if (prune or all_subsets) else None, ff, bu, skip))
+                else:
+                    real = _obs(toks, lambda: start.dfs(prune=pf if (prune or all_subsets) else None, filter=ff,
+                                                        bottom_up=bu, skip_self=skip))
                 yield Case("ldfs", dumps([A("ldfs")] + env + extra + [[A("bottom_up"), bu], [A("skip_self"), skip]]),
                            real, nontriv, d2 + f" bottom_up={bu} skip_self={skip}",
                            sig=f"ldfs|bottom_up={bu}|skip_self={skip}")
-            real = _obs(toks, lambda: start.bfs(prune=pf if (prune or all_subsets) else None, filter=ff,
-                                                skip_self=skip))
+            if positional:
+                real = _obs(toks, lambda: start.bfs(pf if (prune or all_subsets) else None, ff, skip))
+            else:
+                real = _obs(toks, lambda: start.bfs(prune=pf if (prune or all_subsets) else None, filter=ff,
+                                                    skip_self=skip))
             yield Case("lbfs", dumps([A("lbfs")] + env + extra + [[A("skip_self"), skip]]), real, nontriv,
                        d2 + f" skip_self={skip}", sig=f"lbfs|skip_self={skip}")
         if all_subsets and rng.random() < 0.9:
